@@ -464,6 +464,21 @@ var v1Fixed = []string{
 	"param (a, b)\nx := 0\ntry {\n\tx = 1 / a\n} catch e {\n\tx = 10\n} finally {\n\tx += 5\n}\nif a && b || x > 5 {\n\tx++\n}\nreturn x\n",
 	"param (a, b)\nf := func(p) {\n\tfor i := 0; i < 3; i++ {\n\t\tif i == p {\n\t\t\treturn 1 / (p - 1)\n\t\t}\n\t}\n\treturn 0\n}\nx := a > 0 ? f(a) : f(b)\nreturn x\n",
 	"param (a, b)\ntry {\n\tif a > b {\n\t\tthrow error(\"big\")\n\t}\n} finally {\n\ta = a + 1\n}\nreturn [a, b][a]\n",
+	// selector calls with arguments (CALLNAME, the last opcode of the table) between jumps and try blocks
+	"param (a, b)\nm := {double: func(x) { return x * 2 }, add: func(x, y) { return x + y }, zero: func() { return 0 }}\nx := m.zero()\nfor i := 0; i < 4; i++ {\n\tif i % 2 == 0 {\n\t\tx += m.double(i)\n\t} else {\n\t\tx = m.add(x, i)\n\t}\n}\ntry {\n\tx = m.add(x, 1 / a)\n} catch e {\n\tx = m.double(x)\n} finally {\n\tx = m.add(x, m.zero())\n}\nreturn a && b ? m.double(x) : m.add(x, 1)\n",
+	"param (a, b)\nf := func(o, n) {\n\ts := 0\n\tfor i := 0; i < n; i++ {\n\t\ts = o.step(s, i)\n\t\tif s > 5 { break }\n\t}\n\treturn o.done(s)\n}\nreturn f({step: func(s, i) { return s + i }, done: func(s) { return [s] }}, 6)\n",
+}
+
+func init() {
+	// a function longer than 32 KiB in the version-1 layout: jump and try targets at positions
+	// >= 32768 (read back as 2-byte operands by the converter)
+	var sb strings.Builder
+	sb.WriteString("param (a, b)\nx := 0\n")
+	for i := 0; i < 2100; i++ {
+		fmt.Fprintf(&sb, "if a == %d { x += %d }\n", i%7, i%5)
+	}
+	sb.WriteString("try {\n\tx = x / (b - b)\n} catch e {\n\tx += 1000\n} finally {\n\tx += 1\n}\nfor i := 0; i < 3; i++ { if i == 1 { continue }; x += i }\nreturn x\n")
+	v1Fixed = append(v1Fixed, sb.String())
 }
 
 // malformed inputs for the converter (model correspondence on the panic / error branches)
